@@ -87,6 +87,11 @@ def gen_args(rng, name, reset_ok=False):
             return [rng.choice(RESET_TEXTS)]
         if reset_ok and rng.random() < 0.5:
             return [any_request_text(rng)]
+        if reset_ok and rng.random() < 0.15:
+            # unusual argument containers on an object that is blocked: whatever is handed over, nothing may be
+            # written and the answer is the failure value (a batch form that is "vacuously successful" is not)
+            return [rng.choice(([None], (None, None), [[None]], [], ["SM,1,0,0"], ("EM,0,0", None), b"SM,1,0,0",
+                                bytearray(b"TP"), ["SM,1,0,0", "TP"], iter(()), {"SM,1,0,0": 1}))]
         return [rng.choice(COMMAND_TEXTS)]
     if name == "query":
         if reset_ok and rng.random() < 0.5:
@@ -365,6 +370,8 @@ def expect_primitive(world, frame):
     text = frame["a"][0] if frame["a"] else frame["k"].get("cmd", frame["k"].get("qry"))
     if text is None:
         return {"skip": "no text"}
+    if not isinstance(text, str):
+        return {"skip": "request text is not a string (outside the statement)"}
     trimmed = text.strip()
     name = request_name(trimmed)
     io = io_of(world, frame)
